@@ -24,7 +24,7 @@ class FuncReport:
 
 def contract_axioms(c):
     from .vals import trigger_axioms
-    ax = list(trigger_axioms())
+    ax = list(trigger_axioms()) + THEORIES['mention']()
     if c.order_axioms:
         ax += order_axioms()
     if c.arith_axioms:
@@ -122,6 +122,8 @@ def generate(program, cname, mode='vc', only_case=None):
         ex.frame.ghost = {}
         for g, text in cc.bind.items():
             ex.frame.ghost[g] = ex.eval_spec(text, st)
+            for d in getattr(ex.frame.ghost[g], 'defs', ()):
+                st.assume(d)
         s = z3.Solver()
         s.set('timeout', 5000)
         for f in st.pc:
@@ -217,7 +219,7 @@ def _gen_job(job):
         c = CONTRACTS[cname]
         ax = contract_axioms(c)
         vac = []
-        step = max(1, len(rep.obligations) // 4)
+        step = max(1, len(rep.obligations) // 8)
         for o in rep.obligations[::step]:
             vac.append(ObText(Obligation('vacuity::hyps-of::' + o.name, 'vacuity', o.hyps, z3.BoolVal(False), cname, axioms=ax)))
         return dict(ok=True, name=cname, case_idx=case_idx, paths=rep.paths, notes=sorted(rep.notes), cases=rep.cases,
